@@ -202,6 +202,14 @@ def _vector_path_body(chk, spec, rng, v, vals, f0, i, new):
 	elif path == "promote":
 		new = pool.wider(next((x for x in vals if x is not None), 1))
 		o = call(lambda: v.__setitem__(i, new)); single = (i, new)
+	elif path.startswith("nothing-addressed"):
+		# a key that addresses no cell, with a value of a WIDER kind (or None): whatever the write does to the vector - promote it, flag it nullable, nothing - the
+		# fingerprint afterwards is that of what it holds
+		new = None if path.endswith("none") else pool.wider(next((x for x in vals if x is not None), 1))
+		how = path.split("/")[1]
+		key = {"mask": [False] * n, "mask-vector": Vector([False] * n), "index-list": [], "slice": slice(0, 0), "index-tuple": ()}[how]
+		val = new if how in ("mask", "mask-vector") else ([] if how != "slice" else [])
+		o = call(lambda: v.__setitem__(key, val)); single = None
 	elif path == "none":
 		o = call(lambda: v.__setitem__(i, None)); single = (i, None)
 	else:
@@ -574,6 +582,87 @@ def run_linear_cells(chk, spec):
 RUNNERS["linear_cells"] = run_linear_cells
 
 
+WEAK_PAIRS = [("plumless", "buckeroo"), ("codding", "gnu"), ("Aa", "BB"), ("AaAa", "BBBB"), ("AaBB", "BBAa"), ("ab", "ba"), ("abc", "cba"), ("\x00a", "a"), ("a", "a\x00"), ("", "\x00"), (b"Aa", b"BB"), ("ȁ", "\x01\x02")]
+
+
+def run_weak_pairs(chk, spec):
+	"""unequal texts that collide under the usual cheap string hashes (CRC-32, the 31-polynomial, order-blind sums, hashes that drop NULs or fold bytes): Python's
+	hash() tells every pair apart, so replacing one by the other - alone, inside a tuple cell, as a table cell - and exchanging the two changes the fingerprint"""
+	a, b = WEAK_PAIRS[spec["pair"]]
+	if hash(a) == hash(b):
+		chk.skip("weak-pair-collides-under-hash")
+		return
+	how = spec["how"]
+	chk.judged("sensitivity", ("weak-pair", spec["pair"], how))
+	if how == "swap":
+		f0, f1 = fp(Vector([a, b, a])), fp(Vector([b, a, a]))
+		what = f"Vector([{a!r}, {b!r}, {a!r}]) and Vector([{b!r}, {a!r}, {a!r}])"
+	else:
+		wrap = (lambda x: (1, x)) if how.startswith("tuple") else (lambda x: x)
+		if how.endswith("table"):
+			t = Table({"s": [wrap(a), wrap("zz")], "n": [1, 2]})
+			f0 = fp(t)
+			w = call(t.__setitem__, (0, "s"), wrap(b)) if not how.startswith("tuple") else call(lambda: t["s"].__setitem__(0, wrap(b)))
+			f1 = fp(t)
+		else:
+			v = Vector([wrap(a), wrap("zz")])
+			f0 = fp(v)
+			key = {"elem": 0, "tuple-elem": 0, "mask": [True, False], "slice": slice(0, 1)}[how]
+			w = call(v.__setitem__, key, wrap(b) if how in ("elem", "tuple-elem", "mask") else [wrap(b)])
+			f1 = fp(v)
+		if not w.ok:
+			chk.skip("weak-pair-write-refused")
+			return
+		what = f"{how}: {a!r} -> {b!r}"
+	if f0.ok and f1.ok and f0.value == f1.value:
+		chk.fail("a write that changes an element to an unequal value changes the fingerprint", f"fingerprint/insensitive/weak-string-hash/{how}", f"{spec!r}: {what}: fingerprint {f0.value} both times")
+
+
+RUNNERS["weak_pairs"] = run_weak_pairs
+
+
+def run_date_midnight(chk, spec):
+	"""a date and the datetime of its midnight are unequal values with different hash(): replacing one by the other - in an object column, inside a tuple cell, or
+	for the whole column when a <date> column is promoted in place by writing exactly midnight of the day a cell already holds - changes the fingerprint"""
+	d0, d1 = V.date(2024, 5, 17), V.date(2024, 5, 18)
+	m0 = V.datetime(2024, 5, 17)
+	if hash(d0) == hash(m0):
+		chk.skip("date-hashes-like-midnight")
+		return
+	how = spec["how"]
+	chk.judged("sensitivity", ("date-midnight", how, spec["direction"]))
+	a, b = (d0, m0) if spec["direction"] == "date->datetime" else (m0, d0)
+	if how == "object-cell":
+		x = Vector([a, "z"], dtype=object)
+		f0 = fp(x); w = call(x.__setitem__, 0, b); f1 = fp(x)
+	elif how == "tuple-cell":
+		x = Vector([(1, a), (2, d1)])
+		f0 = fp(x); w = call(x.__setitem__, 0, (1, b)); f1 = fp(x)
+	elif how == "promote-column":
+		x = Vector([d0, d1]) if spec["direction"] == "date->datetime" else Vector([m0, V.datetime(2024, 5, 18, 7)])
+		f0 = fp(x); w = call(x.__setitem__, 0, b); f1 = fp(x)
+	elif how == "promote-table-column":
+		x = Table({"day": [d0, d1] if spec["direction"] == "date->datetime" else [m0, V.datetime(2024, 5, 18, 7)], "n": [1, 2]})
+		f0 = fp(x); w = call(x.__setitem__, (0, "day"), b); f1 = fp(x)
+	else:
+		x = Table({"day": [d0, d1] if spec["direction"] == "date->datetime" else [m0, V.datetime(2024, 5, 18, 7)], "n": [1, 2]})
+		h = x["day"]
+		f0 = fp(x); w = call(h.__setitem__, 0, b); f1 = fp(x)
+	if not (w.ok and f0.ok and f1.ok):
+		chk.skip("date-midnight-write-refused")
+		return
+	cells = list((x.cols()[0] if isinstance(x, Table) else x)._underlying)
+	first = cells[0][1] if how == "tuple-cell" else cells[0]
+	if type(first) is type(a) and first == a:
+		chk.skip("date-midnight-write-kept-the-old-cell")
+		return
+	if f0.value == f1.value:
+		chk.fail("a write that changes an element to an unequal value changes the fingerprint", f"fingerprint/insensitive/date-vs-its-midnight/{how}", f"{spec!r}: {a!r} -> {first!r}: fingerprint {f0.value} both times")
+
+
+RUNNERS["date_midnight"] = run_date_midnight
+
+
 def run_row_fingerprint(chk, spec):
 	"""a row of a table is a vector: its fingerprint is that of a freshly built vector of its cells - before and after writes to the table, for rows fetched
 	one by one and for the rows of one iteration; a vector holding a row (or a class that merely defines fingerprint) as a CELL can be fingerprinted too"""
@@ -835,6 +924,17 @@ def run(chk):
 				for pos in ("first", "last"):
 					for e in (1, -1):
 						chk.case("linear_cells", {"kind": kind, "K": K, "e": e, "pos": pos, "via": via, "pad": rng.choice([0, 1, 3])}, "linear-cells")
+	for how in ("object-cell", "tuple-cell", "promote-column", "promote-table-column", "promote-through-handle"):
+		for direction in ("date->datetime", "datetime->date"):
+			chk.case("date_midnight", {"how": how, "direction": direction}, "date-midnight")
+	for pair in range(len(WEAK_PAIRS)):
+		for how in ("elem", "mask", "slice", "tuple-elem", "elem-table", "tuple-elem-table", "swap"):
+			chk.case("weak_pairs", {"pair": pair, "how": how}, "weak-pairs")
+	for kind in ("int", "bigint", "float", "date", "bool", "str"):
+		for how in ("mask", "mask-vector", "index-list", "slice", "index-tuple"):
+			for tail in ("wider", "none"):
+				for nullable in (False, True):
+					chk.case("vector_path", {"kind": kind, "path": f"nothing-addressed/{how}/{tail}", "cached": True, "nullable": nullable, "n": rng.choice([1, 3]), "seed": rng.randrange(10**9)}, "vector-path-nothing-addressed")
 	for kinds in (["int", "int"], ["int", "str"], ["float", "int", "str"], ["tuple", "int"], ["int"]):
 		for how in ("fetched", "iteration"):
 			chk.case("row_fingerprint", {"kinds": kinds, "how": how}, "row-fingerprint")
